@@ -326,7 +326,40 @@ class Interp:
             return ("exc", v[1].split("builtins.")[-1], (), where, cause)
         return ("exc", "Exception", (v,), where, cause)
 
+    def _desugar_comp(self, node: ast.Assign) -> Optional[List[ast.stmt]]:
+        """`x = {k: await f(k) for k in it}` (or list/set) -> explicit loop, so that awaited calls inside fork properly."""
+        v = node.value
+        if not isinstance(v, (ast.DictComp, ast.ListComp, ast.SetComp)) or len(v.generators) != 1:
+            return None
+        if not any(isinstance(n, ast.Await) for n in ast.walk(v)):
+            return None
+        g = v.generators[0]
+        tmp = "$comp"
+        if isinstance(v, ast.DictComp):
+            init: ast.expr = ast.Dict(keys=[], values=[])
+            body: ast.stmt = ast.Assign(targets=[ast.Subscript(value=ast.Name(id=tmp, ctx=ast.Load()), slice=v.key, ctx=ast.Store())], value=v.value)
+        elif isinstance(v, ast.ListComp):
+            init = ast.List(elts=[], ctx=ast.Load())
+            body = ast.Expr(value=ast.Call(func=ast.Attribute(value=ast.Name(id=tmp, ctx=ast.Load()), attr="append", ctx=ast.Load()), args=[v.elt], keywords=[]))
+        else:
+            init = ast.Call(func=ast.Name(id="set", ctx=ast.Load()), args=[], keywords=[])
+            body = ast.Expr(value=ast.Call(func=ast.Attribute(value=ast.Name(id=tmp, ctx=ast.Load()), attr="add", ctx=ast.Load()), args=[v.elt], keywords=[]))
+        for cond in reversed(g.ifs):
+            body = ast.If(test=cond, body=[body], orelse=[])
+        stmts: List[ast.stmt] = [
+            ast.Assign(targets=[ast.Name(id=tmp, ctx=ast.Store())], value=init),
+            ast.For(target=g.target, iter=g.iter, body=[body], orelse=[]),
+            ast.Assign(targets=node.targets, value=ast.Name(id=tmp, ctx=ast.Load())),
+        ]
+        for s_ in stmts:
+            ast.copy_location(s_, node)
+            ast.fix_missing_locations(s_)
+        return stmts
+
     def st_Assign(self, node: ast.Assign, st: State, ctx: Ctx) -> List[Tuple[State, Any]]:
+        des = self._desugar_comp(node)
+        if des is not None:
+            return self.exec_block(des, st, ctx)
         out = []
         for s, v, sig in self.eval_forking(node.value, st, ctx):
             if sig is not None:
@@ -579,6 +612,10 @@ class Interp:
             return [self.call(itv[1], [x], {}, st, ctx, node) for x in inner]
         if itv[0] == "chunks":
             return None
+        if itv[0] == "app" and itv[1] in ("range", "builtins.range") and 3 <= len(itv) <= 5 and all(is_c(x) and isinstance(x[1], int) for x in itv[2:]):
+            r = range(*[x[1] for x in itv[2:]])
+            if len(r) <= 64:
+                return [c(k) for k in r]
         return None
 
     def st_Break(self, node: ast.Break, st: State, ctx: Ctx) -> List[Tuple[State, Any]]:
@@ -1319,6 +1356,36 @@ class Interp:
 
     def ev_GeneratorExp(self, node: ast.GeneratorExp, st: State, ctx: Ctx) -> Term:
         return self.ev_ListComp(node, st, ctx)  # type: ignore[arg-type]
+
+    def ev_SetComp(self, node: ast.SetComp, st: State, ctx: Ctx) -> Term:
+        v = self.ev_ListComp(node, st, ctx)  # type: ignore[arg-type]
+        if v[0] == "obj":
+            ho = st.heap[v[1]]
+            uniq: List[Term] = []
+            for it in ho.items:
+                if it not in uniq:
+                    uniq.append(it)
+            ho.kind, ho.items = "set", uniq
+            return v
+        if v[0] == "mapobj":
+            return ("mapobj", v[1], v[2], "set")
+        return v
+
+    def ev_DictComp(self, node: ast.DictComp, st: State, ctx: Ctx) -> Term:
+        if len(node.generators) != 1 or node.generators[0].ifs or node.generators[0].is_async:
+            raise AnalysisError(f"unsupported comprehension at {ctx.loc(node)}")
+        g = node.generators[0]
+        itv = self.eval(g.iter, st, ctx)
+        items = self.iter_items(itv, st, ctx, node)
+        if items is None:
+            return top("dict comprehension over a symbolic collection")
+        saved = dict(st.env)
+        pairs = []
+        for it in items:
+            self.assign(g.target, it, st, ctx)
+            pairs.append((self.canon_cmp_operand(self.eval(node.key, st, ctx), st), self.eval(node.value, st, ctx)))
+        st.env = saved
+        return st.alloc(HeapObj("dict", None, {}, pairs))
 
     def ev_Starred(self, node: ast.Starred, st: State, ctx: Ctx) -> Term:
         raise AnalysisError(f"starred expression at {ctx.loc(node)}")
